@@ -10,8 +10,8 @@ import (
 
 func init() {
 	register(&PropDef{
-		ID:    "C09",
-		Level: "proof",
+		ID:          "C09",
+		Level:       "proof",
 		Explanation: "Proof of the store's write protocol on the CFG of the publishing function, for all paths: the published file only ever changes by os.Rename of a file that os.CreateTemp created in the same call and in the same directory, after Encode of the data parameter on that file returned nil; success is returned only after the rename succeeded; nothing else in the module creates, truncates, appends to or removes the published path; Load opens exactly that path, decodes with the same codec and maps not-exist to the empty state.",
 		Trusted: []string{
 			"POSIX rename(2) atomically replaces the destination within one directory",
